@@ -181,6 +181,14 @@ fn rp_ids_for(host: &str) -> Vec<Option<String>> {
     v.push(Some(format!("{host}.")));
     v.push(Some("unrelated.org".into()));
     v.push(Some("localhost".into()));
+    // the host, and its parent domain, with a port tail (the ports the origins use, their scheme
+    // defaults, and a zero-padded spelling): an RP ID is a domain, never host:port
+    for port in ["443", "8443", "80", "8080", "0443"] {
+        v.push(Some(format!("{host}:{port}")));
+        if let Some((_, parent)) = host.split_once('.') {
+            v.push(Some(format!("{parent}:{port}")));
+        }
+    }
     if let Some(u) = idna_unicode(host) {
         v.push(Some(u));
     }
